@@ -137,6 +137,24 @@ func verifC05Append() {
 		return
 	}
 	verifAssert(q.AppendedSeq() == appended+1, "sequence numbers grow by one per append")
+	// where the message was placed (its index entry): never on an earlier page, never on top of bytes
+	// that lie before the previous message's end (they belong to earlier messages), never split
+	{
+		qq := q.(*queue)
+		seq := appended + 1
+		ip, ok := qq.indexPageFct.GetPage(seq / indexItemsPerPage)
+		verifAssert(ok, "the index page of the new message exists")
+		if ok {
+			io := int((seq % indexItemsPerPage) * indexItemLength)
+			np := int64(ip.ReadUint64(io + queueDataPageIndexOffset))
+			no := int64(ip.ReadUint32(io + messageOffsetOffset))
+			nl := int64(ip.ReadUint32(io + messageLengthOffset))
+			verifAssert(nl == int64(mlen), "the index entry carries the message length")
+			verifAssert(np >= pageID, "the message is not placed on an earlier data page")
+			verifAssert(np != pageID || no >= offset+wlen, "on the page of the previous message it starts at or behind that message's end (earlier bytes belong to earlier messages)")
+			verifAssert(no+nl <= dataPageSize, "a message is never split over two pages")
+		}
+	}
 	got, err := q.Get(appended + 1)
 	verifAssert(err == nil && verifSameBytes(got, msg), "the message reads back under its sequence byte for byte")
 	w, err := q.Get(appended)
